@@ -269,7 +269,10 @@ func (s *Service) builderBidAttempt(ctx context.Context,
 		firstBid = builderBid
 	}
 
-	if lastBid == nil || bidBetter(lastBid, builderBid) {
+	// Pass on every bid that differs from the last one passed on by this relay.  The bid's score depends
+	// on the builder as well as the value, so whether it is better than the current one is decided
+	// by the caller.
+	if lastBid == nil || !bidsIdentical(lastBid, builderBid) {
 		lastBid = builderBid
 		respCh <- &builderBidResponse{
 			bid:      builderBid,
@@ -400,7 +403,7 @@ func (s *Service) logBidResults(span trace.Span,
 		return
 	}
 
-	delta := new(uint256.Int).Sub(lastValue, firstValue).ToBig()
+	delta := new(big.Int).Sub(lastValue.ToBig(), firstValue.ToBig())
 	pctDelta := float64(new(big.Int).Div(new(big.Int).Mul(delta, big.NewInt(10000)), firstValue.ToBig()).Int64()) / 100.00
 	if pctDelta == 0.00 {
 		span.SetAttributes(attribute.String("value", firstValue.Dec()))
@@ -518,16 +521,16 @@ func bidsEqual(bid1 *builderspec.VersionedSignedBuilderBid, bid2 *builderspec.Ve
 	return bytes.Equal(bid1Root[:], bid2Root[:])
 }
 
-// bidBetter returns true if the second bid has a higher value than the first.
-func bidBetter(bid1 *builderspec.VersionedSignedBuilderBid, bid2 *builderspec.VersionedSignedBuilderBid) bool {
-	value1, err := bid1.Value()
+// bidsIdentical returns true if the two bids have the same message, i.e. the same header, value and builder.
+func bidsIdentical(bid1 *builderspec.VersionedSignedBuilderBid, bid2 *builderspec.VersionedSignedBuilderBid) bool {
+	bid1Root, err := bid1.MessageHashTreeRoot()
 	if err != nil {
 		return false
 	}
-	value2, err := bid2.Value()
+	bid2Root, err := bid2.MessageHashTreeRoot()
 	if err != nil {
 		return false
 	}
 
-	return new(uint256.Int).Sub(value2, value1).Sign() == 1
+	return bytes.Equal(bid1Root[:], bid2Root[:])
 }
